@@ -61,11 +61,12 @@ Spec == Init /\ [][Next]_vars
 InRange    == \A i \in 1..Len(steps) : steps[i].r < steps[i].c
 TU == UniformTab(Progs)
 TI == IdcTab(Progs)
-TK == KTab(Progs)
+TP == PmTab(Progs)
+TPA == PmAnyTab(Progs)
 TA == KAnyTab(Progs)
 TL == LeafTab(Progs)
 ExactCover == ExactCoverRun(run, TU)
-LeafReach  == LeafReachRun(run, TI, TK, TL)
+LeafReach  == LeafReachRun(run, TI, TP, TPA, TL)
 LeafReachAny == LeafReachAnyRun(run, TA, TL)
 (* the code's own consistency panics never fire *)
 NoPanic    == idx <= Len(stack) /\ \A i \in 1..Len(stack) : stack[i].count < stack[i].ceiling
